@@ -137,6 +137,7 @@ impl ISocket for ReqSocket {
       }
     }
 
+    crate::verif_point!("req.send.checked");
     let timeout_opt: Option<Duration> = { self.core.core_state.read().options.sndtimeo };
 
     // === ASYNC OPERATION: Find a Peer (No Lock Held) ===
